@@ -131,7 +131,7 @@ CLAIMED["C09"] = dict(
        "stratified under a time box in the quick tier) plus multi-bit/pair alterations in copies, running 9 read paths (Open, ReadTx, ReadTxHeader, ReadTxEntry, ReadValue, ExportTx, "
        "TxReader, proofs, index rebuild) under recover + deadline: accept = error or identical content.",
   design_ref="DESIGN.md §4 C09, docs/C09.md",
-  note="spec/CorruptionSeq.tla: read SEQUENCES (checked / unchecked reads of the same and other values) x alteration placement x value-cache modes (VLogCacheSize 0 / 1 / 64). Exhaustive single-bit coverage only in the thorough tier; index and hash-tree files are outside the property's scope.",
+  note="spec/CorruptionSeq.tla: read SEQUENCES (checked / unchecked reads of the same and other values) x alteration placement x value-cache modes (VLogCacheSize 0 / 1 / 64). Single-bit coverage is exhaustive only where the thorough tier finishes a store class inside its time box (200 s per class; the rest is counted); index and hash-tree files are outside the property's scope.",
   technique="TLA+ field/check matrix evaluated by TLC + bit-flip replay on real stores")
 CLAIMED["C10"] = dict(
   category="model_checking",
